@@ -8,6 +8,7 @@ package main
 
 import (
 	"bytes"
+	"encoding/binary"
 	"context"
 	"encoding/json"
 	"errors"
@@ -627,8 +628,27 @@ func TestVerifC13(t *testing.T) {
 		}
 		size := int64(len(full))
 		var boundaries []int64
+		// cuts inside a stored 8-byte hash of the sig-exists file (the buckets are sparse: a seeded sample of a 900 KiB file
+		// practically never lands inside one of the few stored hashes)
+		var insideHash []int64
+		if tg.name == "sig-exists" || tg.name == "server/sig-exists" {
+			nh := 8
+			if !quick {
+				nh = len(sigs)
+			}
+			for i, sg := range sigs {
+				if i >= nh {
+					break
+				}
+				var le [8]byte
+				binary.LittleEndian.PutUint64(le[:], bucketteer.Hash(sg))
+				if at := bytes.LastIndex(full, le[:]); at > 655000 {
+					insideHash = append(insideHash, int64(at)+4)
+				}
+			}
+		}
 		if tg.name == "sig-exists" {
-			boundaries = []int64{4, 12, 20, 655400}
+			boundaries = append([]int64{4, 12, 20, 655400}, insideHash...)
 		}
 		if tg.name == "slot-to-blocktime" {
 			boundaries = []int64{8, 40, 44, size - 4, size - 3, size - 2, size - 1}
@@ -654,6 +674,9 @@ func TestVerifC13(t *testing.T) {
 			if tg.name == "server/sig-exists" {
 				// the bucket area lies behind the 655 KiB header: sample it
 				cuts = nil
+				for _, at := range insideHash {
+					cuts = append(cuts, at-3, at+1) // one byte / five bytes of a stored hash left
+				}
 				for i := 0; i < n; i++ {
 					cuts = append(cuts, 655400+rng.Int63n(size-655400))
 				}
